@@ -347,6 +347,17 @@ type stack struct {
 	// blocks that have been canonical on this node and are not any more (to count switch-backs)
 	wasCanon map[thor.Bytes32]bool
 	nq       int
+	dead     bool // a call into thor code failed: the stream ends with an Error event
+}
+
+// die ends the stream: the failure of thor code is logged where it happened; nothing is delivered to this node afterwards.
+func (s *stack) die(re *realErr, extra trace.Ev) {
+	ev := errorEv(re)
+	for k, v := range extra {
+		ev[k] = v
+	}
+	s.evs = append(s.evs, ev)
+	s.dead = true
 }
 
 func (w *world) openStack(idx int) *stack {
@@ -367,21 +378,39 @@ func (s *stack) bestName() string { return s.w.rec.bname(s.node.Repo.BestBlockSu
 func (s *stack) checkpoint(ev trace.Ev, nq, na int) {
 	best := s.node.Repo.BestBlockSummary().Header
 	ev["best"] = s.w.rec.bname(best.ID())
-	t := s.w.rec.observe(ev, s.ldb, s.w.st)
+	t, re := s.w.rec.observe(ev, s.ldb, s.w.st)
+	if re != nil {
+		s.die(re, trace.Ev{"after": ev["e"], "b": ev["b"]})
+		return
+	}
 	s.evs = append(s.evs, ev)
-	s.evs = append(s.evs, s.q.run(s.ldb, t, best.Number(), nq)...)
-	if na > 0 {
-		s.evs = append(s.evs, s.q.runAPI(s.api, t, best.Number(), s.w.b0.Header().Timestamp(), best.Timestamp(), na)...)
+	qs, re := s.q.run(s.ldb, t, best.Number(), nq)
+	s.evs = append(s.evs, qs...)
+	if re == nil && na > 0 {
+		qs, re = s.q.runAPI(s.api, t, best.Number(), s.w.b0.Header().Timestamp(), best.Timestamp(), na)
+		s.evs = append(s.evs, qs...)
+	}
+	if re != nil {
+		s.die(re, nil)
 	}
 }
 
 // deliver gives blk to the node through the real import path and logs what happened.
 func (s *stack) deliver(blk *block.Block) string {
+	if s.dead {
+		return "dead"
+	}
 	w := s.w
 	old := s.node.Repo.BestBlockSummary().Header.ID()
 	oldChain := s.node.Repo.NewChain(old)
-	trunk, class, err := s.node.Node.VerifProcessBlock(blk)
 	name := w.rec.bname(blk.Header().ID())
+	var trunk bool
+	var class string
+	var err error
+	if re := guard("import", func() error { trunk, class, err = s.node.Node.VerifProcessBlock(blk); return nil }); re != nil {
+		s.die(re, trace.Ev{"b": name})
+		return "dead"
+	}
 	switch class {
 	case "ok":
 		w.st.Imports++
@@ -418,7 +447,12 @@ func (s *stack) deliver(blk *block.Block) string {
 		w.st.Ignored++
 		s.checkpoint(trace.Ev{"e": "Ignore", "b": name, "class": class}, 2, 0)
 	default:
-		fail("node %d could not import block %s (number %d): %s: %v", s.idx, name, blk.Header().Number(), class, err)
+		// the real import path refused a valid block (e.g. the write-logs step failed): an observation, not harness trouble
+		s.die(&realErr{"import", fmt.Sprintf("%s: %v", class, err)}, trace.Ev{"b": name, "num": blk.Header().Number()})
+		return "dead"
+	}
+	if s.dead {
+		return "dead"
 	}
 	return class
 }
